@@ -131,7 +131,7 @@ Definition einv (recs : list (nat * N)) (s : est) : Prop :=
 Lemma estep_inv size dur o s recs : einv recs s ->
   einv (step_recs dur o s ++ recs) (snd (estep size dur o s)) /\ step_sound dur o (fst (estep size dur o s)) recs.
 Proof.
-  intros [Ht Hn]. destruct o as [ds d1 d2 fault|ds d1|ds d1|d|d]; cbn [estep step_recs step_sound].
+  intros [Ht Hn]. destruct o as [ds d1 d2 fault|ds d1|ds d1|d|d|d fault]; cbn [estep step_recs step_sound].
   - destruct (ec_remove_existing dur (now s + d1) (dedup_sort ds) (cache s)) as [mm c1] eqn:R.
     pose proof (ec_remove_existing_spec _ _ _ _ _ _ R) as (T & Sub & J).
     assert (Hsound : forall d asked, In d (dedup_sort ds) -> Some mm = Some asked -> ~ In d asked ->
@@ -163,6 +163,7 @@ Proof.
     + intros k t0 I. apply in_app_or in I. destruct I as [I|I].
       * apply in_map_iff in I. destruct I as (x & E & _). inversion E. lia.
       * specialize (Hn _ _ I). lia.
+  - cbn [fst snd app]. split; [|exact I]. split; assumption.
   - cbn [fst snd app]. split; [|exact I]. split; assumption.
   - cbn [fst snd app]. split; [|exact I]. split; assumption.
 Qed.
@@ -370,7 +371,7 @@ Proof.
   intros Hs. induction ops as [|o r IH]; intros s I L; cbn [erun]; [auto|].
   destruct (estep size dur o s) as [ob s1] eqn:E.
   assert (H1 : ecinv (cache s1) /\ (length (times (cache s1)) <= size)%nat).
-  { destruct o as [ds d1 d2 fault|ds d1|ds d1|d|d]; cbn [estep] in E.
+  { destruct o as [ds d1 d2 fault|ds d1|ds d1|d|d|d fault]; cbn [estep] in E.
     - pose proof (ec_remove_existing_inv dur (now s + d1) (dedup_sort ds) (cache s) I) as I1.
       pose proof (ec_remove_existing_spec dur (now s + d1) (dedup_sort ds) (cache s)) as T.
       destruct (ec_remove_existing dur (now s + d1) (dedup_sort ds) (cache s)) as [mm c1]. cbn [snd] in I1.
@@ -384,7 +385,8 @@ Proof.
       destruct (T mm c1 eq_refl) as (T1 & _). inversion E; subst; cbn [cache]. rewrite T1. auto.
     - inversion E; subst; cbn [cache]. apply ec_add_inv; assumption.
     - inversion E; subst; cbn [cache]. auto.
-    - inversion E; subst; cbn [cache]. auto. }
+    - inversion E; subst; cbn [cache]. auto.
+    - inversion E; subst. auto. }
   destruct H1 as [I1 L1]. specialize (IH s1 I1 L1). destruct (erun size dur r s1) as [obs s2]. cbn [snd] in *. exact IH.
 Qed.
 
@@ -396,3 +398,15 @@ Proof.
   intros Hs. destruct (ec_bounded size dur ops Hs (mkest ec_empty 0%N []) ecinv_empty) as [I _]; [cbn; lia|].
   apply (ei_p _ I).
 Qed.
+
+(** A composite read (GetFromComposite) through the decorator is the
+    backend's: the child iff the backend holds the parent, the backend is asked
+    for exactly that parent, the cache is neither consulted (no clock reading)
+    nor changed - in every state, hence after every history. *)
+Theorem egfc_transparent size dur p s :
+  let (ob, s') := estep size dur (EGfc p 0%Z) s in
+  e_code ob = (if memn p (backend s) then 0 else 5)%Z /\ e_call ob = Some [p] /\ e_clock ob = [] /\ s' = s.
+Proof. cbn. repeat split; reflexivity. Qed.
+
+Theorem egfc_failure_surfaces size dur p f s : f <> 0%Z -> e_code (fst (estep size dur (EGfc p f) s)) = f.
+Proof. intros H. cbn. apply Z.eqb_neq in H. rewrite H. reflexivity. Qed.
